@@ -2,7 +2,7 @@
 from pyvc.api import (Bool, Const, DictOf, Enum, Int, Items, ListOf, Loop, Named, NameTok, Obj, OneOf, Opt, OutFile, Real,
                       Ref, Str, TupleOf, contract, harness, implies, forall, iff, exists, fmt)
 
-BIND = {"Atom": "pdb2pqr.structures:Atom", "print_pqr": "pdb2pqr.main:print_pqr"}
+BIND = {"Atom": "pdb2pqr.structures:Atom", "print_pqr": "pdb2pqr.main:print_pqr", "read_pqr": "pdb2pqr.io:read_pqr"}
 
 
 def ATOM(**over):
@@ -152,3 +152,29 @@ def _wt(tag, t, cf, ch):
 for _t in ("ATOM", "HETATM"):
     for _cf, _ch in ((False, ""), (True, "A")):
         globals()[f"wt_{_t}_{int(_cf)}{_ch or '_'}"] = _wt(f"{_t}.{int(_cf)}{_ch or '_'}", _t, _cf, _ch)
+
+
+# ---------------------------------------------------------------- foreign PQR writers: record name glued to the serial number
+# ("ATOM100000", "HETATM10000": six or five digits fill the columns up to the record name) - every such line is an atom,
+# with its own serial number; read_pqr keeps it (C18: the cube lists every PQR atom once)
+
+
+GLUED_ENS = ["len(result) == 1", "result[0].serial == serial",
+             "result[0].name == 'N' and result[0].res_name == 'MET' and result[0].res_seq == 1",
+             "result[0].x == 1 and result[0].radius == Fraction(3, 2)"]
+
+
+@harness(["C08", "C18"], params={"serial": Int}, requires=["serial >= 100000 and serial <= 9999999"],
+         ensures=GLUED_ENS + ["result[0].type == 'ATOM'"], name="read_pqr.glued.ATOM")
+def glued_atom(serial):
+    lines = ["REMARK   1 PQR file\n", "ATOM" + fmt(serial, "d") + "  N   MET     1       1.000   2.000   3.000  0.5000 1.5000\n",
+             "TER\n", "END\n"]
+    return read_pqr(lines)
+
+
+@harness(["C08", "C18"], params={"serial": Int}, requires=["serial >= 10000 and serial <= 9999999"],
+         ensures=GLUED_ENS + ["result[0].type == 'HETATM'"], name="read_pqr.glued.HETATM")
+def glued_hetatm(serial):
+    lines = ["REMARK   1 PQR file\n", "HETATM" + fmt(serial, "d") + "  N   MET     1       1.000   2.000   3.000  0.5000 1.5000\n",
+             "TER\n", "END\n"]
+    return read_pqr(lines)
